@@ -502,15 +502,35 @@ Lemma exact_reframe (s2 : st) mn mx :
   cache_exact s2 -> cache_exact (mkst (bins s2) mn mx (diffs s2) (min_diff s2) (cap s2)).
 Proof. unfold cache_exact. cbn [diffs bins min_diff]. trivial. Qed.
 
-Lemma insert_path_exact (s1 s' : st) v c pos il :
+(* the first half of the insert path: the new bin is appended / inserted and the cache patched *)
+Definition insert_step (s1 : st) (v : Q) (c : Z) (pos : nat) (is_last : bool) : option st :=
+  if is_last then
+    do '(vl, _) <- nth_error (bins s1) (length (bins s1) - 1);
+    let g := sub A v vl in
+    Some (mkst (bins s1 ++ [(v, c)]) (hmin s1) (hmax s1)
+               (option_map (fun d => d ++ [g]) (diffs s1))
+               (match diffs s1 with Some _ => (if lt_ext A g (min_diff s1) then Fin g else min_diff s1) | None => min_diff s1 end)
+               (cap s1))
+  else
+    update_diffs A (mkst (insert_at pos (v, c) (bins s1)) (hmin s1) (hmax s1)
+                         (option_map (insert_at pos (ofZ A 0)) (diffs s1)) (min_diff s1) (cap s1)) pos.
+
+Lemma insert_path_unfold (s1 : st) v c pos il :
+  insert_path A s1 v c pos il =
+  (do s2 <- insert_step s1 v c pos il;
+   let mn := match hmin s2 with None => Some v | Some m => if ltb A v m then Some v else Some m end in
+   let mx := match hmax s2 with None => Some v | Some m => if ltb A m v then Some v else Some m end in
+   let s3 := mkst (bins s2) mn mx (diffs s2) (min_diff s2) (cap s2) in
+   trim A (length (bins s3)) s3).
+Proof. reflexivity. Qed.
+
+Lemma insert_step_exact (s1 s2 : st) v c pos il :
   cache_exact s1 -> (pos <= length (bins s1))%nat ->
   (il = false -> bins s1 <> [] -> (pos < length (bins s1))%nat) ->
-  insert_path A s1 v c pos il = Some s' -> cache_exact s'.
+  insert_step s1 v c pos il = Some s2 -> cache_exact s2.
 Proof.
-  intros Hc Hle Hlt. unfold insert_path.
-  match goal with |- (do s2 <- ?X; _) = _ -> _ => destruct X as [s2|] eqn:E2; [|discriminate] end.
-  cbn [bind]. intros HT. eapply trim_exact; [|exact HT]. apply exact_reframe.
-  clear HT. unfold cache_exact in Hc. destruct il.
+  intros Hc Hle Hlt E2. unfold insert_step in E2.
+  unfold cache_exact in Hc. destruct il.
   - (* appended after the last bin *)
     destruct (nth_error (bins s1) (length (bins s1) - 1)) as [[vl fl]|] eqn:Hl; [|discriminate]. cbn [bind] in E2.
     inversion E2; subst s2; clear E2. unfold cache_exact. cbn [diffs bins min_diff].
@@ -565,6 +585,17 @@ Proof.
                  --- exists (S q), x. split; [|exact Ex]. rewrite Nd'. destruct (Nat.ltb_spec (S q) pos); [lia|].
                      destruct (Nat.eqb_spec (S q) pos); [lia|]. replace (S q - 1)%nat with q by lia. exact Hq.
     + unfold update_diffs in E2. cbn [diffs] in E2. inversion E2; subst s2. unfold cache_exact. cbn [diffs]. trivial.
+Qed.
+
+Lemma insert_path_exact (s1 s' : st) v c pos il :
+  cache_exact s1 -> (pos <= length (bins s1))%nat ->
+  (il = false -> bins s1 <> [] -> (pos < length (bins s1))%nat) ->
+  insert_path A s1 v c pos il = Some s' -> cache_exact s'.
+Proof.
+  intros Hc Hle Hlt. rewrite insert_path_unfold.
+  destruct (insert_step s1 v c pos il) as [s2|] eqn:E2; [|discriminate].
+  cbn [bind]. intros HT. eapply trim_exact; [|exact HT]. apply exact_reframe.
+  eapply insert_step_exact; eauto.
 Qed.
 
 Lemma choose_in_place_keeps (s1 : st) v pos r : choose_in_place A s1 v pos = Some r -> True.
